@@ -319,7 +319,14 @@ func runRLLB(x *X) {
 	x.Logf("rllb %s", x.Sample["config"])
 	// identities that must share / not share a bucket, by the documented precedence
 	// (first X-Forwarded-For element, then X-Real-IP, then the peer address)
-	K := "203.0.113.77"
+	// the client under test and its nearest neighbours (addresses that differ in the last group
+	// only must still be different clients), in IPv4 and IPv6 spellings
+	fam := c.Intn(3, "addr-family")
+	K := []string{"203.0.113.77", "2001:db8::1", "2001:db8:0:7:a:b:c:d1"}[fam]
+	N1 := []string{"203.0.113.78", "2001:db8::2", "2001:db8:0:7:a:b:c:d2"}[fam]
+	N2 := []string{"203.0.113.7", "2001:db8::11", "2001:db8:0:7:a:b:c:d"}[fam]
+	N3 := []string{"203.0.113.177", "2001:db8::1:1", "2001:db8:0:7:a:b:c:1d1"}[fam]
+	x.Sample["client"] = K
 	type probeReq struct {
 		label    string
 		spec     reqSpec
@@ -335,6 +342,9 @@ func runRLLB(x *X) {
 		{"xff=other xreal=K", reqSpec{client: "10.0.0.6", xff: "198.51.100.2", xreal: K}, false},
 		{"xff=other peer=K", reqSpec{client: K, xff: "198.51.100.3"}, false},
 		{"xff='other, K'", reqSpec{client: "10.0.0.7", xff: "198.51.100.4, " + K}, false},
+		{"xff=neighbour1", reqSpec{client: "10.0.0.8", xff: N1}, false},
+		{"xreal=neighbour2", reqSpec{client: "10.0.0.9", xreal: N2}, false},
+		{"peer=neighbour3", reqSpec{client: N3, xff: ""}, false},
 	}
 	dispatchedReq := func(id int) bool {
 		for _, e := range net.snapshot() {
